@@ -29,6 +29,7 @@ pub fn plan(prop: &str, tier: Tier) -> Option<(&'static str, Vec<Job>)> {
             Job::new("journal-tamper", if q { 128 } else { 6_000 }).timeout(600).shrink(12),
             Job::new("journal-sched", if q { 1600 } else { 60_000 }).shrink(60),
         ],
+        "C04" => vec![Job::new("crash", if q { 480 } else { 12_000 }).caches(&["off", "big"]).timeout(600).shrink(40)],
         "C13" => vec![
             Job::new("wire", if q { 40_000 } else { 1_500_000 }),
             Job::new("catalogue", if q { 600 } else { 20_000 }).caches(&["off", "big"]),
@@ -44,5 +45,6 @@ pub fn plan(prop: &str, tier: Tier) -> Option<(&'static str, Vec<Job>)> {
         "C19" => vec![Job::new("partlog", if q { 1000 } else { 30_000 }).caches(&["off", "big"])],
         _ => return None,
     };
-    Some(("exploration", jobs))
+    let level = if matches!(prop, "C04" | "C11") { "fault_enumeration" } else { "exploration" };
+    Some((level, jobs))
 }
